@@ -40,6 +40,9 @@ where
     } = proof;
 
     let cap_height = params.config.cap_height;
+    // One cap (and one folding challenge) per reduction layer: the query rounds index both by
+    // layer.
+    ensure!(commit_phase_merkle_caps.len() == params.reduction_arity_bits.len());
     for cap in commit_phase_merkle_caps {
         ensure!(cap.len() == 1 << cap_height);
     }
